@@ -468,8 +468,25 @@ def check_uq(ctx, name):
     ctx.nontrivial(['uq', name])
 
 
+def check_threads(ctx, rounds=1):
+    """What a shipped database loads as depends on its files only: all nine
+    loaded by name from three threads at once give the content a lone load
+    gives (a digest over every group's data, the scheme and the UQ block)."""
+    from vmon.core import threads as TH
+    from vmon.core import digests
+
+    def make_jobs():
+        return [(name, lambda name=name: digests.library_digest(
+            libs.fresh(name))) for name in libs.LIBS]
+    res = TH.stress(make_jobs, nthreads=3, rounds=rounds, watchdog=600)
+    TH.judge(ctx, res, 'loading the shipped databases',
+             {'what': 'thread stress', 'lib': 'all'})
+
+
 def run_shard(ctx):
     dense = ctx.tier == 'thorough'
+    if ctx.shard == (ctx.seed % len(libs.LIBS)):
+        check_threads(ctx)
     for i, name in enumerate(libs.LIBS):
         if not ctx.mine(i):
             continue
@@ -483,6 +500,8 @@ def run_shard(ctx):
 
 
 def replay(ctx, case):
+    if case.get('what') == 'thread stress':
+        return check_threads(ctx, rounds=6)
     name = case['lib']
     if case.get('part') == 'locations':
         check_locations(ctx, name)
